@@ -22,11 +22,11 @@ var timeType = reflect.TypeOf(time.Time{})
 type Fn func(rule, objName, fieldName string, v reflect.Value) string
 
 type Opts struct {
-	Tag      string                  // "" = "valid"
-	Typed    map[reflect.Type]map[string]string // rule sets registered for a struct type (pointer-free type)
-	Unscoped map[string]string       // rule set without a type (nil = absent)
-	CallFns  map[string]Fn           // per-call functions
-	GlobalFns map[string]Fn          // globally registered functions (override built-ins of the same name)
+	Tag       string                             // "" = "valid"
+	Typed     map[reflect.Type]map[string]string // rule sets registered for a struct type (pointer-free type)
+	Unscoped  map[string]string                  // rule set without a type (nil = absent)
+	CallFns   map[string]Fn                      // per-call functions
+	GlobalFns map[string]Fn                      // globally registered functions (override built-ins of the same name)
 }
 
 // Result of the model.
